@@ -580,14 +580,20 @@ func H_Create_Legacy() {
 // H_CreateBig (C03, C15, C17): numbers that float64 cannot hold exactly must be carried into the patch verbatim,
 // also on the very first decode of a process (fresh pooled decoder state).
 func H_CreateBig() {
-	a := []byte(`{"id":1,"ratio":0.5,"keep":12345678901234567890123,"e":1E5}`)
-	b := []byte(`{"id":9007199254740993,"ratio":0.1234567890123456789,"keep":12345678901234567890123,"e":1E5,"new":1e400}`)
+	// two spellings of neighbouring integers above 2^53 and of neighbouring decimals: different numbers (different
+	// literals) that one float64 cannot tell apart
+	d1, d2 := symDigit("big.d1"), symDigit("big.d2")
+	a := []byte(`{"id":1,"ratio":0.5,"keep":12345678901234567890123,"e":1E5,"near":900719925474099` + string([]byte{d1}) + `,"tiny":0.1000000000000000` + string([]byte{d1}) + `}`)
+	b := []byte(`{"id":9007199254740993,"ratio":0.1234567890123456789,"keep":12345678901234567890123,"e":1E5,"near":900719925474099` + string([]byte{d2}) + `,"tiny":0.1000000000000000` + string([]byte{d2}) + `,"new":1e400}`)
+	vx.Note("a", a)
+	vx.Note("b", b)
 	var pB []byte
 	var err error
 	panicked := vx.CatchPanic(func() { pB, err = jsonpatch.CreateMergePatch(a, b) })
 	vx.Assert(!panicked && err == nil, "C03/big-numbers-succeeds")
 	vx.Assert(!panicked && err == nil, "C15/create-big-numbers-succeeds")
 	vx.Assert(!panicked && err == nil, "C17/big-numbers-decode")
+	vx.Assert(!panicked && err == nil, "C16/well-formed-numbers-accepted-on-fresh-state")
 	vx.Assert(!panicked, "C04/create-no-panic")
 	if panicked || err != nil {
 		return
@@ -598,7 +604,11 @@ func H_CreateBig() {
 	if !ok {
 		return
 	}
-	want, _ := parseJSON([]byte(`{"id":9007199254740993,"ratio":0.1234567890123456789,"new":1e400}`))
+	wantB := []byte(`{"id":9007199254740993,"ratio":0.1234567890123456789,"new":1e400}`)
+	if d1 != d2 {
+		wantB = []byte(`{"id":9007199254740993,"ratio":0.1234567890123456789,"near":900719925474099` + string([]byte{d2}) + `,"tiny":0.1000000000000000` + string([]byte{d2}) + `,"new":1e400}`)
+	}
+	want, _ := parseJSON(wantB)
 	vx.Assert(refEqual(P, want), "C03/number-literals-carried-over-unchanged")
 	vx.Assert(refEqual(P, want), "C15/create-reads-back-as-intended-value")
 	vx.Assert(refEqual(P, want), "C17/number-literals-kept")
